@@ -96,7 +96,12 @@ def make_case(index, rng, tier):
         ops, app, silent = gen_client(rng, rng.uniform(0.1, 4.0), silent_ok=True)
         clients.append({"ops": ops, "app": app, "silent": silent})
     term = round(rng.uniform(0.3, 7.0), 2) if rng.randrange(2) == 0 else None
-    return {"threads": threads, "worker_connections": wc, "keepalive": ka, "clients": clients, "term": term,
+    binds = 2 if rng.randrange(4) == 0 else 1
+    if binds == 2 and len(clients) >= 2 and rng.randrange(2):
+        # two clients arrive at the same instant, one on each listening address
+        i = rng.randrange(len(clients) - 1)
+        clients[i + 1]["ops"][0][1] = clients[i]["ops"][0][1]
+    return {"threads": threads, "worker_connections": wc, "keepalive": ka, "clients": clients, "term": term, "binds": binds,
             "graceful_timeout": rng.choice([1, 2, 4]), "at_capacity": at_capacity,
             "buggify": {"pyticks": rng.randrange(3) == 0, "short_recv": rng.randrange(3) == 0, "spurious_select": False,
                         "accept_eagain": rng.randrange(4) == 0, "accept_econnaborted": rng.randrange(5) == 0},
@@ -114,11 +119,12 @@ def run(case, choices):
     sim.fine_long = bool(case.get("fine_long"))
     wc, ka, gt = case["worker_connections"], case["keepalive"], case["graceful_timeout"]
     w = W.WorkerWorld(sim, "gthread", {"timeout": 30, "graceful_timeout": gt, "keepalive": ka, "threads": case["threads"],
-                                       "worker_connections": wc})
+                                       "worker_connections": wc},
+                      extra_addrs=[("127.0.0.1", 8001)] if case.get("binds", 1) == 2 else ())
     for i in range(case["preempt"]):
         sim.preempt_at.add(1 + choices.choose(4000, "preempt"))
     p = w.start_worker()
-    clients = [w.add_client("c%d" % i, c["ops"]) for i, c in enumerate(case["clients"])]
+    clients = [w.add_client("c%d" % i, c["ops"], addr=w.addrs[i % 2] if len(w.addrs) > 1 else None) for i, c in enumerate(case["clients"])]
     open_socks = {}          # fd -> dict(name, at)
     active = {}              # fd -> task name of the handler currently between handle-begin and handle-end
     state = {"max_open": 0, "term_at": None, "spin": None, "accepted": 0, "closed_by": {}}
